@@ -788,6 +788,44 @@ func ssReachCase(idx int) (*shpCase, string) {
 	return c, fmt.Sprintf("parent %d, ignore marks=%v, nested %s, parent input %d", pf, ignore, name, len(input))
 }
 
+// ---------------------------------------------------------------- family: anchors on an axis
+//
+// Mark-to-base and mark-to-mark with every combination of base (mark2) anchor and mark anchor from
+// (0,0) [= no anchor], (0,y), (x,0), (x,y), (+-1, -+1): one line per combination, sequences
+// "A m", "A m m2", "B A m m2".
+var ssAxisAnchors = []anchor.Table{{}, {X: 0, Y: 120}, {X: 350, Y: 0}, {X: 350, Y: 120}, {X: -1, Y: 1}, {X: 0, Y: -1}}
+
+const ssAxisCount = 6 * 6 * 2
+
+func ssAxisCase(idx int) (*shpCase, string) {
+	ba := ssAxisAnchors[idx%6]
+	idx /= 6
+	ma := ssAxisAnchors[idx%6]
+	idx /= 6
+	mkmk := idx%2 == 1
+	var st gtab.Subtable
+	tp := uint16(4)
+	if mkmk {
+		tp = 6
+		st = &gtab.Gpos6_1{Mark1Cov: coverage.Table{ssM2: 0}, Mark2Cov: coverage.Table{ssM: 0},
+			Mark1Array: []markarray.Record{{Class: 0, Table: ma}}, Mark2Array: [][]anchor.Table{{ba}}}
+	} else {
+		st = &gtab.Gpos4_1{MarkCov: coverage.Table{ssM: 0, ssM2: 1}, BaseCov: coverage.Table{ssA: 0},
+			MarkArray: []markarray.Record{{Class: 0, Table: ma}, {Class: 1, Table: ma}}, BaseArray: [][]anchor.Table{{ba, ba}}}
+	}
+	c := &shpCase{ll: gtab.LookupList{ssLookup(tp, 0, 0, st)}, gd: ssGdef(), lookups: []gtab.LookupIndex{0}}
+	for _, gids := range [][]glyph.ID{{ssA, ssM}, {ssA, ssM, ssM2}, {ssB, ssA, ssM, ssM2}} {
+		s := ssText(gids)
+		for i := range s {
+			if s[i].GID == ssA || s[i].GID == ssB {
+				s[i].Advance = 650
+			}
+		}
+		c.hist = append(c.hist, s)
+	}
+	return c, fmt.Sprintf("mark-to-mark=%v base anchor (%d,%d) mark anchor (%d,%d)", mkmk, ba.X, ba.Y, ma.X, ma.Y)
+}
+
 // positioning: value records, pairs (both formats), mark-to-base, mark-to-mark on
 // base + marks clusters with advances.
 func (g *ssGen) positioning() *shpCase {
@@ -795,8 +833,24 @@ func (g *ssGen) positioning() *shpCase {
 	vr := func() *gtab.GposValueRecord {
 		return &gtab.GposValueRecord{XPlacement: funit.Int16(r.Range(-50, 50)), YPlacement: funit.Int16(r.Range(-50, 50)), XAdvance: funit.Int16(r.Range(-80, 80))}
 	}
+	// every coordinate independently from {0, 0, +-1, small, large}: anchors on an axis are anchors;
+	// only (0, 0) is "no anchor" (the library stores a NULL anchor offset as the zero value, and the
+	// reference keeps that convention)
+	co := func() funit.Int16 {
+		switch r.Intn(7) {
+		case 0, 1:
+			return 0
+		case 2:
+			return funit.Int16(Pick(r, []int{1, -1}))
+		case 3:
+			return funit.Int16(Pick(r, []int{3000, -3000, 12000}))
+		}
+		return funit.Int16(r.Range(-300, 800))
+	}
 	an := func() anchor.Table {
-		return anchor.Table{X: funit.Int16(r.Range(1, 600)), Y: funit.Int16(r.Range(1, 800))}
+		a := anchor.Table{X: co(), Y: co()}
+		g.c.Stat("anchor coordinates (x zero, y zero)", fmt.Sprintf("%v,%v", a.X == 0, a.Y == 0))
+		return a
 	}
 	mkbase := &gtab.Gpos4_1{MarkCov: coverage.Table{ssM: 0, ssM2: 1, ssM3: 2}, BaseCov: coverage.Table{ssA: 0, ssB: 1, ssL: 2},
 		MarkArray: []markarray.Record{{Class: 0, Table: an()}, {Class: 1, Table: an()}, {Class: 0, Table: an()}},
@@ -987,6 +1041,11 @@ func areaShapeSpec(c *Ctx) {
 		sc, what := ssEdgeCase(i)
 		c.Stat("obligation: ignored glyphs at the edges", what)
 		emit(sc, "edge family")
+	}
+	for i := 0; i < ssAxisCount; i++ {
+		sc, what := ssAxisCase(i)
+		c.Stat("obligation: anchors on an axis", what)
+		emit(sc, "axis anchor family")
 	}
 	for i := 0; i < ssReachCount; i++ {
 		sc, what := ssReachCase(i)
